@@ -38,6 +38,7 @@ Definition leqb (a b : list nat) : bool := list_eqb Nat.eqb a b.
 Definition node_eqb (a b : node) : bool :=
   String.eqb (n_op a) (n_op b) && leqb (n_attrs a) (n_attrs b) && leqb (n_ins a) (n_ins b) && leqb (n_caps a) (n_caps b) && leqb (n_outs a) (n_outs b).
 Definition memn (n : node) (l : list node) : bool := existsb (node_eqb n) l.
+Definition no_caps (n : node) : bool := match n_caps n with [] => true | _ => false end.   (* elementwise operators have no nested graphs *)
 Definition mem (x : name) (l : list name) : bool := existsb (Nat.eqb x) l.
 Definition addn (n : node) (l : list node) : list node := if memn n l then l else l ++ [n].
 
@@ -119,45 +120,60 @@ Fixpoint add_walk (g : tgraph) (fuel : nat) (prev : option node) (cur : node) (s
       end
   end.
 
+(* ---- the rewrite shared by phases A and B: an elementwise REGION [r_es] between input Transposes [r_ts] (perm p) and
+        consumer Transposes [r_outs] (perm p^-1) is moved to the other layout.  The Python does it with replace_input_with on
+        the region's nodes (an input produced by an input Transpose is re-pointed to that Transpose's source), one
+        replace_all_uses_with(t_out, t_in) per consumer Transpose, graph.remove of the consumer Transposes and (phase B) of the
+        input Transposes left without consumers; the consumer Transposes' outputs and the region's outputs are different
+        names, so the calls commute and the net effect is ONE renaming of the kept nodes ([region_tr]). *)
+Record region := mkR { r_es : list node; r_ts : list node; r_outs : list node; r_dead : list node }.
+Definition pairs_of (l : list node) : list (name * name) :=
+  flat_map (fun t => match out1 t, first_in t with Some o, Some s => [(o, s)] | _, _ => [] end) l.
+Definition lookup_ren (m : list (name * name)) (x : name) : name :=
+  match find (fun pr => Nat.eqb (fst pr) x) m with Some pr => snd pr | None => x end.
+Definition ren_out (r : region) : name -> name := lookup_ren (pairs_of (r_outs r)).
+Definition ren_in (r : region) (x : name) : name := ren_out r (lookup_ren (pairs_of (r_ts r)) x).
+Definition region_tr (r : region) (n : node) : node :=
+  if memn n (r_es r) then mkNode (n_op n) (n_attrs n) (map (ren_in r) (n_ins n)) (map (ren_out r) (n_caps n)) (n_outs n)
+  else subst_map (ren_out r) n.
+Definition region_keep (r : region) (n : node) : bool := negb (memn n (r_outs r)) && negb (memn n (r_dead r)).
+Definition apply_region (g : tgraph) (r : region) : tgraph :=
+  mkTG (map (region_tr r) (filter (region_keep r) (tg_nodes g))) (map (ren_out r) (tg_outputs g)) (tg_scalar g).
+
+(* phase A: the input Transposes are the producers of the chain's non-chain inputs, the consumer Transposes are the
+   non-Add consumers of the chain's outputs; no input Transpose is removed *)
+Definition add_region (g : tgraph) (st : addst) : region :=
+  let ns := tg_nodes g in
+  let ts := fold_left (fun acc iv => match producer ns iv with
+                                      | Some pr => if is_T pr && permeq (perm_of pr) (as_fwd st) then addn pr acc else acc
+                                      | None => acc end)
+                      (flat_map n_ins (as_chain st)) [] in
+  let outs := fold_left (fun acc n => match out1 n with
+                                       | Some o => fold_left (fun a c => addn c a)
+                                                     (filter (fun c => is_T c && permeq (perm_of c) (as_inv st)) (consumers ns o)) acc
+                                       | None => acc end)
+                        (as_chain st) [] in
+  mkR (as_chain st) ts outs [].
+Definition apply_add (g : tgraph) (st : addst) : tgraph := apply_region g (add_region g st).
+
 Definition decide_add (g : tgraph) (start : node) : option addst :=
   if negb (is_add start) then None else
   match add_walk g (S (length (tg_nodes g))) None start (mkAS [] None None) with
   | Some st => match as_chain st, as_fwd st, as_inv st with
-               | _ :: _, Some pf, Some pi => if inv_ok pf pi then Some st else None
+               | _ :: _, Some pf, Some pi =>
+                   (* no input Transpose (perm_fwd) of a chain member reads a value produced by a chain member *)
+                   let reads_chain iv := match producer (tg_nodes g) iv with
+                                         | Some pr => is_T pr && permeq (perm_of pr) (Some pf)
+                                                      && match first_in pr with
+                                                         | Some s => match producer (tg_nodes g) s with Some pp => memn pp (as_chain st) | None => false end
+                                                         | None => false end
+                                         | None => false end in
+                   if inv_ok pf pi && forallb no_caps (as_chain st ++ r_ts (add_region g st) ++ r_outs (add_region g st))
+                      && negb (existsb (fun n => existsb reads_chain (n_ins n)) (as_chain st))
+                   then Some st else None
                | _, _, _ => None
                end
   | None => None
-  end.
-
-(* rewrite: inputs of the chain's Adds that come from a Transpose with perm_fwd are re-pointed to its source; then, chain
-   node by chain node, every consumer Transpose with perm_inv is bypassed *)
-Definition add_src (ns : list node) (pf : list nat) (iv : name) : name :=
-  match producer ns iv with
-  | Some pr => if is_T pr && permeq (perm_of pr) (Some pf) then match first_in pr with Some s => s | None => iv end else iv
-  | None => iv
-  end.
-Fixpoint add_bypass (ns0 : list node) (pi : list nat) (chain : list node) (g : graph) (rm : list node) : graph * list node :=
-  match chain with
-  | [] => (g, rm)
-  | n :: r =>
-      match out1 n with
-      | None => add_bypass ns0 pi r g rm
-      | Some out =>
-          let cs := filter (fun c => is_T c && permeq (perm_of c) (Some pi)) (consumers (g_nodes g) out) in
-          let g' := fold_left (fun acc c => match out1 c with Some co => replace_all_uses co out acc | None => acc end) cs g in
-          add_bypass ns0 pi r g' (fold_left (fun acc c => match out1 c with Some _ => addn c acc | None => acc end) cs rm)
-      end
-  end.
-Definition outs_in (rm : list node) (n : node) : bool := existsb (fun m => leqb (n_outs m) (n_outs n)) rm.
-Definition apply_add (g : tgraph) (st : addst) : tgraph :=
-  match as_fwd st, as_inv st with
-  | Some pf, Some pi =>
-      let ns0 := tg_nodes g in
-      let ns1 := map_inputs (fun n => memn n (as_chain st)) (add_src ns0 pf) ns0 in
-      let chain1 := map (fun n => mkNode (n_op n) (n_attrs n) (map (add_src ns0 pf) (n_ins n)) (n_caps n) (n_outs n)) (as_chain st) in
-      let '(g2, rm) := add_bypass ns0 pi chain1 (mkGraph ns1 (tg_outputs g)) [] in
-      mkTG (filter (fun n => negb (outs_in rm n)) (g_nodes g2)) (g_outputs g2) (tg_scalar g)
-  | _, _ => g
   end.
 
 (* ================================================================ phases B and C: backward closure over elementwise nodes *)
@@ -217,6 +233,7 @@ Definition decide_forest (g : tgraph) (t2 : node) : option forest :=
           | Some p => if negb (inv_ok p q) then None else
                       match forest_outs g es es q [] with
                       | Some outs => if memn t2 outs && negb (existsb (fun t => memn t outs) ts)   (* no input transpose is also an output transpose *)
+                                        && forallb no_caps (es ++ ts ++ outs)
                                      then Some (mkF ts es outs) else None
                       | None => None
                       end
@@ -226,19 +243,18 @@ Definition decide_forest (g : tgraph) (t2 : node) : option forest :=
       end
   | _, _ => None
   end.
-Definition apply_forest (g : tgraph) (f : forest) : tgraph :=
-  let tmap := flat_map (fun t => match out1 t, first_in t with Some o, Some s => [(o, s)] | _, _ => [] end) (f_ts f) in
-  let re x := match find (fun p => Nat.eqb (fst p) x) tmap with Some p => snd p | None => x end in
-  let ns1 := map_inputs (fun n => memn n (f_es f)) re (tg_nodes g) in
-  let outs1 := map (fun n => if memn n (f_es f) then mkNode (n_op n) (n_attrs n) (map re (n_ins n)) (n_caps n) (n_outs n) else n) (f_outs f) in
-  let g2 := fold_left (fun acc t => match out1 t, first_in t with Some o, Some i => replace_all_uses o i acc | _, _ => acc end)
-                      outs1 (mkGraph ns1 (tg_outputs g)) in
-  let live := filter (fun n => negb (outs_in (f_outs f) n)) (g_nodes g2) in
-  let g3 := mkTG live (g_outputs g2) (tg_scalar g) in
+(* phase B: an input Transpose is removed when, after the rewrite, nobody reads its output *)
+Definition forest_region (g : tgraph) (f : forest) : region :=
+  let r := mkR (f_es f) (f_ts f) (f_outs f) [] in
+  let live := map (region_tr r) (filter (region_keep r) (tg_nodes g)) in
+  let outs' := map (ren_out r) (tg_outputs g) in
   let dead t := match out1 t with
-                | Some o => match consumers live o with [] => negb (tobserved g3 o) | _ => false end
-                | None => false end in
-  mkTG (filter (fun n => negb (existsb (fun t => leqb (n_outs t) (n_outs n) && dead t) (f_ts f))) live) (g_outputs g2) (tg_scalar g).
+                | Some o => negb (existsb (fun m => mem o (n_ins m)) live)
+                            && negb (mem o outs' || existsb (fun m => mem o (n_caps m)) live)
+                | None => false
+                end in
+  mkR (f_es f) (f_ts f) (f_outs f) (filter dead (f_ts f)).
+Definition apply_forest (g : tgraph) (f : forest) : tgraph := apply_region g (forest_region g f).
 
 (* phase C *)
 Record dag := mkD { d_T1 : node; d_T2 : node; d_es : list node }.
